@@ -134,9 +134,19 @@ def _run_unit(args):
         fn(ctx)
     except Unsupported as e:
         ctx.unsupported("%s/unit" % name, name, "%s\n%s" % (e, traceback.format_exc()[-1500:]))
-    except Exception as e:  # checker error
-        ctx._rec("%s/unit" % name, name, ERROR, "none", 0.0,
-                 detail="%s: %s\n%s" % (type(e).__name__, e, traceback.format_exc()[-3000:]))
+    except Exception as e:
+        # An exception of a kind that symbolic stand-ins cannot provoke (index/key/assertion/zero division/unbound name), raised by a frame of the REAL
+        # code while the harness's inputs satisfy the contract's precondition, refutes the implicit clause "returns normally": a violation, not a crash of
+        # the checker.  Everything else (type errors of the symbolic values, errors inside /verif) stays a checker error (exit 3).
+        tb = traceback.extract_tb(e.__traceback__)
+        in_repo = bool(tb) and os.path.abspath(tb[-1].filename).startswith(os.path.abspath(REPO) + os.sep)
+        if in_repo and isinstance(e, (IndexError, KeyError, AssertionError, ZeroDivisionError, NameError)):
+            where = "%s:%d in %s" % (os.path.relpath(tb[-1].filename, REPO), tb[-1].lineno, tb[-1].name)
+            ctx._rec("%s/returns-normally" % name, where, REFUTED, "symbolic-execution", 0.0, clause="the function returns normally on every input satisfying its precondition",
+                     detail="%s: %s raised at %s\n%s" % (type(e).__name__, e, where, traceback.format_exc()[-2500:]))
+        else:
+            ctx._rec("%s/unit" % name, name, ERROR, "none", 0.0,
+                     detail="%s: %s\n%s" % (type(e).__name__, e, traceback.format_exc()[-3000:]))
     return dict(unit=name, obs=ctx.obs, standins=ctx.standins, functions=ctx.functions,
                 notes=ctx.notes, assumptions=sorted(ctx.assumptions), wall_s=round(time.time() - t0, 3))
 
